@@ -1,7 +1,7 @@
 """Property -> rules table."""
 from __future__ import annotations
 
-from . import bounds, coalitions, evaluation, game, gameplay, generators, gym, normalize, regret, save, shapley, solvers
+from . import bounds, coalitions, evaluation, game, gameplay, generators, gym, normalize, norms, regret, save, shapley, solvers
 
 _NOTE = ("Static analysis of /repo's current source (Python ast, own name resolution, provenance terms, "
          "path-sensitive walks). Decides the structural necessary conditions listed; does not observe numeric behaviour.")
@@ -28,8 +28,8 @@ PROPERTIES: dict[str, dict] = {
     "C06": {"title": "Shapley value", "rules": [shapley.rule_c06_shapley],
             "explanation": _NOTE + " C06: S1 weights s!(n-s-1)! over range(n) as integer linear forms, S2 entry-point agreement, S3 coefficient index, S4 with/without pairing, S5 summand direction and n! divisor, S6 domain.",
             "rule": _SITE_RULE},
-    "C07": {"title": "More information never hurts", "rules": [bounds.rule_bounds],
-            "explanation": _NOTE + " C07: B13 knowledge polarity of every candidate set in all registered computers.",
+    "C07": {"title": "More information never hurts", "rules": [bounds.rule_bounds, norms.rule_n1_gap_registry, shapley.rule_c05_exploitability, shapley.rule_c06_shapley],
+            "explanation": _NOTE + " C07: B13 knowledge polarity of every candidate set in all registered computers; N1 gap-function registry (names, partials, ord) and lp_norm shape; N2 gap polarity of exploitability (upper bounds enter through coalitions with the player, lower bounds without, factorial weights) via X1/X2/S1-S6.",
             "rule": _SITE_RULE},
     "C08": {"title": "Bounds depend only on current knowledge", "rules": [bounds.rule_bounds, gym.rule_h3_undo, game.rule_c17_copy_neg_init, game.rule_c17_columns],
             "explanation": _NOTE + " C08: B1-B5 for all six registered computers, H1 no hidden state.",
